@@ -169,3 +169,6 @@ func c11dirOf(p *types.Package) string { return p.SourcePath }
 
 // (v2 only: the v1 builder makes its universe from everything it was given)
 func c06secondUniverse(g *Gen, i int, prog []GenPkg) ([]string, bool) { return nil, false }
+
+// c01vendored: the vendored GOPATH layouts are a v2 case (packages.Load); v1's vendor handling is exercised by C03.
+func c01vendored(g *Gen) {}
